@@ -221,7 +221,7 @@ impl Scenario for C04 {
 
     fn runs(&self, tier: Tier) -> u64 {
         match tier {
-            Tier::Quick => 20_000,
+            Tier::Quick => 200_000,
             Tier::Thorough => 10_000_000,
         }
     }
@@ -768,16 +768,13 @@ fn api_history(w: &Arc<World>, p: &Plan) {
                     }
                     latest_theirs = Some((s.challenge, s.flags));
                     proof = false;
-                    if issued_now.len() == issued_seen + 1 {
-                        latest_issued = issued_now.last().copied();
-                        all_issued.push(latest_issued.unwrap());
-                    } else {
-                        w.violation("challenge-handling", "handle_challenge succeeded without issuing exactly one challenge".to_string());
+                    if issued_now.len() == issued_seen {
+                        // no challenge drawn at this step: whichever step draws it is picked up below
+                        w.stat("c04.challenge_not_drawn_in_handle_challenge");
                     }
                 } else if valid {
                     w.stat("c04.valid_input_rejected");
                 }
-                issued_seen = issued_now.len();
                 desc = format!("handle_challenge(valid={}) -> {}", valid, r.is_ok());
             }
             "reply" => {
@@ -789,7 +786,8 @@ fn api_history(w: &Arc<World>, p: &Plan) {
                             w.violation("reply-layout", format!("prepare_challenge_reply produced {} (expected challenge {} and MD5(cookie ++ {}))", wire::hex(bytes), ours, theirs));
                         }
                     }
-                    (Ok(_), _, _) => w.violation("reply-without-challenge", "prepare_challenge_reply succeeded although no challenge is in progress".to_string()),
+                    (Ok(_), _, None) => w.violation("reply-without-challenge", "prepare_challenge_reply succeeded although no peer challenge has been handled since the last disconnect".to_string()),
+                    (Ok(_), None, Some(_)) => w.stat("c04.reply_before_own_challenge_known"),
                     _ => {}
                 }
                 desc = format!("prepare_challenge_reply -> {}", r.is_ok());
@@ -846,6 +844,13 @@ fn api_history(w: &Arc<World>, p: &Plan) {
                 }
                 desc = "disconnect".to_string();
             }
+        }
+        // whichever step drew a challenge from the (seeded) source, it is the one now in force
+        let issued_now = w.challenges_issued();
+        if issued_now.len() > issued_seen {
+            all_issued.extend_from_slice(&issued_now[issued_seen..]);
+            latest_issued = issued_now.last().copied();
+            issued_seen = issued_now.len();
         }
         w.ev(format!("step {} {} : {} -> {}", i, desc, before, sm.state()));
         // Invariants after every step
